@@ -170,7 +170,8 @@ class Scenario:
         self.fs = fs or {}                 # name -> 'file' | 'dir'
         self.user_files = user_files or {}  # name -> text
         self.rank, self.resid = rank, resid
-        self.zero = set(zero)              # column names / solution symbols judged vanishing
+        self.zero = set(zero)              # column names / solution symbols judged vanishing at every volume
+        self.zero_some = set()             # ... vanishing at some volumes only (must be kept)
         self.kwargs = kwargs or {}
         self.opened = []
         self.lstsq = None
@@ -317,17 +318,60 @@ def run_fill(model, sc: Scenario, ctx=None):
             return bool(names) and names <= sc.zero
         raise AnalysisError("allclose of a non-column")
 
+    class ColsMat:
+        def __init__(self, names, vals):
+            self.names, self.vals = names, vals
+
+        def sym_getattr(self, ev, name, node, mod):
+            if name in ("to_numpy", "values"):
+                return BoundLib("identity", self) if name == "to_numpy" else self
+            if name in ("any", "all"):
+                return BoundLib(f"boolmat.{name}", self)
+            raise ev.err(f"attribute {name} of a block of columns", node, mod)
+
+    def isclose(ev, a, k):
+        m = a[0]
+        if isinstance(m, ColsMat) and is_sym(a[1]) and a[1] == 0:
+            out = ColsMat(m.names, m.vals)
+            out.is_bool = True
+            return out
+        if is_sym(m):
+            names = {str(s_) for s_ in m.free_symbols}
+            c = ColsMat(["?"], [m])
+            c.is_bool = True
+            return c
+        raise AnalysisError("isclose of an unexpected value in fill_cij")
+
+    def boolred(kind):
+        def f(ev, a, k):
+            m = a[0]
+            axis = k.get("axis", a[1] if len(a) > 1 else None)
+            flags = []
+            for v in m.vals:
+                names = {str(s_) for s_ in sp.sympify(v).free_symbols}
+                allz = bool(names) and names <= sc.zero
+                somez = allz or (bool(names) and names <= (sc.zero | sc.zero_some))
+                flags.append(somez if kind == "any" else allz)
+            if axis is None:
+                return any(flags) if kind == "any" else all(flags)
+            if _const_int(axis) != 0:
+                raise AnalysisError("reduction of the zero test along the column axis")
+            return Tup(flags, "list")
+        return f
+
     def df_items(ev, a, k):
         return Tup([Tup([n, ColV(n, v)]) for n, v in a[0].cols.items()], "list")
 
     def df_drop(ev, a, k):
-        df, name = a[0], a[1]
-        if _const_int(k.get("axis", sp.Integer(0))) != 1:
+        df = a[0]
+        name = a[1] if len(a) > 1 else k.get("columns", k.get("labels"))
+        if "columns" not in k and _const_int(k.get("axis", sp.Integer(0))) != 1:
             raise AnalysisError("DataFrame.drop with axis != 1")
         out = df.copy()
-        if name not in out.cols:
-            raise RaisedV("KeyError")
-        del out.cols[name]
+        for nm in (name.items if isinstance(name, Tup) else [name]):
+            if nm not in out.cols:
+                raise RaisedV("KeyError")
+            del out.cols[nm]
         return out
 
     def astype(ev, a, k):
@@ -340,12 +384,14 @@ def run_fill(model, sc: Scenario, ctx=None):
         "sympy.parsing.sympy_parser.parse_expr": parse_expr, "sympy.symbols": symbols, "sympy.Symbol": symbols,
         "sympy.linear_eq_to_matrix": lineq, "numpy.array": np_array, "numpy.broadcast_to": broadcast_to,
         "numpy.concatenate": concatenate, "numpy.linalg.lstsq": lstsq, "numpy.allclose": allclose,
+        "numpy.isclose": isclose, "boolmat.any": boolred("any"), "boolmat.all": boolred("all"),
         "DataFrame.items": df_items, "DataFrame.drop": df_drop, "identity": lambda ev, a, k: a[0],
         "identity_method": lambda ev, a, k: a[0], "ndarray.astype": astype,
         "collections.OrderedDict": lambda ev, a, k: __import__("cijsa.sym", fromlist=["lib_dict"]).lib_dict(ev, a, k, None, None),
     }
     ev = Ev(model, {}, intr, ctx=ctx)
     ev_ref = {}
+    DFV.sym_subscript_multi = lambda self, names: ColsMat(list(names), [self.cols[n_] for n_ in names])
     f = model.func(FILL)
     mod = model.mods["cij.util.fill"]
     # parameter defaults are read from the signature
